@@ -201,7 +201,11 @@ func checkProgramA(t ev.T, test string, p Program, outs []Outcome, snaps []map[s
 			defer box.Close()
 			for i, c := range p.Calls {
 				var got Outcome
+				uncleanPaths = nil
 				ev.Guard(t, prop, test, p, func() { got = run(box.FS, box.Root, c) })
+				if len(uncleanPaths) > 0 {
+					ev.Fail(t, prop, test, p, "%s backend, call %d %s returned a path that is not in clean form: %q", kind, i, c, uncleanPaths[0])
+				}
 				if got != outs[i] {
 					ev.Fail(t, prop, test, p, "%s backend, call %d %s: returned %s, reference model says %s", kind, i, c, got, outs[i])
 				}
